@@ -601,7 +601,7 @@ func optionCoverage(c *Ctx, rule string) {
 				case ssa.CallInstruction:
 					cn := p.CalleeName(x)
 					if strings.HasPrefix(cn, "(*"+pkgAPI+".") && strings.Contains(cn, ").Get") {
-						typ := cn[len("(*"+pkgAPI+".") : strings.Index(cn, ")")]
+						typ := cn[len("(*"+pkgAPI+"."):strings.Index(cn, ")")]
 						read[typ+"."+strings.TrimPrefix(cn[strings.Index(cn, ").")+2:], "Get")] = true
 					}
 				case *ssa.FieldAddr:
